@@ -64,12 +64,21 @@ def run(tier, seed, replay=None):
     for i in range(n):
         which = rng.choice(["amen_solve", "amen_solve", "fast_matvec", "fast_matvec"]) if i >= 8 else "fast_matvec"
         if i in (8, 10): which = "fast_matvec"
-        if i in (9, 11): which = "amen_solve"
+        if i in (9, 11, 19, 21, 23): which = "amen_solve"
         sd = rng.randrange(1 << 30)
         if which == "amen_solve":
             A, b, N, kind = c12.gen_system(rng, torch, torchtt)
             eps = rng.choice([1e-10, 1e-8, 1e-6, 1e-4, 1e-3])
             prec = rng.choice([None, "c", "r"])
+            if i in (19, 21, 23):
+                # engineered: a diagonally dominant operator with badly scaled rows (log-spaced diagonal per mode plus a small coupling, entries spanning
+                # 1e4 .. 1e6): the residual contract is relative to ||b||, so an error of size eps ||x|| in the solution is NOT within it
+                Ns_, span_, eps = [([8, 8, 8], 2.0, 1e-4), ([8, 8, 8, 8], 1.0, 1e-4), ([6, 6, 6], 2.0, 1e-6)][(i - 19) // 2]
+                N = list(Ns_); kind = "diagdom-badly-scaled"
+                Dg = torchtt.TT([torch.diag(torch.logspace(0, span_, n_, dtype=dt)).reshape(1, n_, n_, 1) for n_ in N])
+                A = Dg + solverkit.rand_ttm_float(rng, N, N, [1] + [2] * (len(N) - 1) + [1], dt) * 0.02
+                b = solverkit.rand_tt_float(rng, N, [1] + [3] * (len(N) - 1) + [1], dt)
+                prec = [None, "c", None][(i - 19) // 2]
             guess = solverkit.rand_tt_float(rng, N, solverkit.ranks(rng, len(N), 3), dt) if rng.random() < 0.4 else None
             gk = "random" if guess is not None else "none"
             if i in (17, 18) or rng.random() < 0.08:
@@ -106,6 +115,9 @@ def run(tier, seed, replay=None):
             except Exception as ex:
                 V.fail("amen_solve[%s] raises %s [%s]" % (name, type(ex).__name__, key), dict(desc, exc=str(ex)[:200])); continue
             for name in ("cpp", "python"):
+                if kind == "diagdom-badly-scaled" and res[name][1] > 3.0 * eps:
+                    # both solvers truncate on the residual: on this family they end below eps (0.3 .. 1 eps); an error of eps ||x|| in the solution shows as ~10 eps here
+                    V.fail("amen_solve[%s]: residual exceeds 3*eps on the badly scaled family [%s]" % (name, key), dict(desc, rel_residual=res[name][1]))
                 if res[name][1] > c12.CONST * eps: V.fail("amen_solve[%s]: residual exceeds %g*eps [%s]" % (name, c12.CONST, key), dict(desc, rel_residual=res[name][1]))
             dxy = float((res["cpp"][0] - res["python"][0]).norm() / max(1e-300, float(res["python"][0].norm())))
             cond_slack = 1e3
